@@ -350,8 +350,8 @@ def regions(v):
                         res.add("C29-htab-in-quoted-string")
                     i += 1
     exp, unspec = reference(v)
-    if exp["other"] and not (exp["flags"] or exp["num"] or exp["priv"] is not None or exp["nc"] is not None):
-        res.add("C29-other-only-dropped")   # only unknown directives are present
+    if (exp["other"] or "other" in unspec) and not (exp["flags"] or exp["num"] or exp["priv"] is not None or exp["nc"] is not None):
+        res.add("C29-other-only-dropped")   # only unknown directives are (or may be) present
     return res
 
 
@@ -385,9 +385,9 @@ def classify(line, impl, why):
     except ValueError:
         return None
     regs = regions(v)
-    if not regs:
-        return None
     if not why or why.startswith("model and implementation differ"):
+        if not regs:
+            return None
         # correspondence break inside a known class (the model follows the unrepaired code; a candidate fix changes the implementation)
         return sorted(regs)[0]
     ids = []
